@@ -46,7 +46,7 @@ META = {
             "entry lambda of an evaluation is a heap cell too, and callee passes inline Closure values through): "
             "the theorems are stated for gops ext = concreteOps ext with a guarded callee, step_gops shows the "
             "guard invisible in CalleeOk states, and the bytecode-verifier stream checks CalleeOk at every "
-            "executed call site (oracle callee-ok), argNeed <= args.len(), and iof=0 on every lambda.",
+            "executed call site (oracle callee-ok), argNeed <= args.len(), and iof=0 on every lambda. ROUND 5 (value-typed verifier, real machine): the verifier now types temporaries val | argc n | any (PUSHACC / PUSHIMM-of-a-value push val, CONS pops two typed cells, CALL/TCALL need argc n over n typed cells, MOV never loads through a Ptr, MOVIMM loads a value, HALT is the last cell); WF-stack is re-proved for it for all 16 opcodes (val cells, argument blocks and frame arguments hold values; acc holds a value; a frame has at least argNeed argument cells), 0 rejects on every real code object. tail_loop_sp_machine states T04.5 on the REAL machine (run_one over concreteOps, no callee guard, no per-step CalleeOk): hypotheses ExtLaws/ExtGood/ExtCodeLawsV, GoodI and WF-stack of the FIRST state of the loop, SizeBounded, and CalleeOkAlong (callee guard at reachable CALL/TCALL/ENTER sites = oracle callee-ok; a reachability fact that is NOT derived from WF-stack, see Lemmas/StackDiscOfWFS.lean). step_preserves_machine: one real instruction preserves GoodI and WFS. Bridge: step_vops (the guards of vops are invisible on GoodI states). The *_concrete theorems (gops, per-step CalleeOk) are kept.",
     "technique": "Lean 4 proof (frame-replacement lemmas for TCALL/ENTER over an abstract heap; compiler emits TCALL iff R7RS tail position, by induction) + lock-step replay, compiled-code comparison, stack high-water-mark oracle",
 }
 MODULE = "Marwood.Proofs.C04"
@@ -82,6 +82,16 @@ THEOREMS = [
     "Marwood.Proofs.C04.step_preserves_concrete",
     "Marwood.Proofs.C04.step_halt_concrete",
     "Marwood.Proofs.C04.tail_loop_sp_concrete",
+    "Marwood.Proofs.C04.step_to_vops",
+    "Marwood.Proofs.C04.trace_to_vops",
+    "Marwood.Proofs.C04.tailLoop_to_vops",
+    "Marwood.Proofs.C04.tail_loop_sp_machine",
+    "Marwood.Proofs.C04.step_preserves_machine",
+    "Marwood.Lemmas.Good.step_vops",
+    "Marwood.Lemmas.Good.vmOk_step",
+    "Marwood.Lemmas.Good.stackDisc_of_wfs",
+    "Marwood.Vm.Concrete.concreteLawsV",
+    "Marwood.Vm.Concrete.cgc_gcLawsV",
 ]
 
 
